@@ -785,6 +785,12 @@ class ArrayType(DerivedDataType, metaclass=_ArrayReprMeta):
     ...
 
 
+def _is_length_type(length) -> bool:
+    return isinstance(length, DataType) or (
+        isinstance(length, type) and issubclass(length, DataType)
+    )
+
+
 def Array(
     length_: Union[USINT, UINT, UDINT, ULINT, int, None],
     element_type_: Union[DataType, Type[DataType]],
@@ -824,7 +830,10 @@ def Array(
                         for i in range(0, len(values), chunk_size)
                     ]
 
-                return b"".join(cls.element_type.encode(values[i]) for i in range(_len))
+                encoded = b"".join(cls.element_type.encode(values[i]) for i in range(_len))
+                if _is_length_type(_length):
+                    return _length.encode(_len) + encoded
+                return encoded
             except Exception as err:
                 raise DataError(
                     f"Error packing {reprlib.repr(values)} into {cls.element_type}[{_length}]"
@@ -848,12 +857,12 @@ def Array(
                 if _length is None:
                     return cls._decode_all(stream)
 
-                if isinstance(_length, DataType):
+                if _is_length_type(_length):
                     _len = _length.decode(stream)
                 else:
                     _len = _length
 
-                _val = [cls.element_type.decode(stream) for _ in range(_length)]
+                _val = [cls.element_type.decode(stream) for _ in range(_len)]
 
                 if issubclass(cls.element_type, BitArrayType):
                     return list(chain.from_iterable(_val))
